@@ -70,7 +70,8 @@ def world_at(hist):
     return (DECL_EDITED if edited else [], (MFILE_EDITED if edited else MFILE) if has_m else [])
 
 
-MODEL_KIND = {'S': 'S', 'N': 'S', 'M': 'S', 'R': 'R', 'Q': 'R', 'W': 'W', 'C': 'C', 'K': 'C'}
+MODEL_KIND = {'S': 'S', 'N': 'S', 'M': 'S', 'R': 'R', 'Q': 'R', 'W': 'W', 'V': 'W', 'Y': 'W', 'C': 'C', 'K': 'C'}
+WIPES = 'WVY'      # W --wipe, V --wipe --native-file other.ini, Y --wipe --cross-file other.ini
 
 
 def ev_wire(ev, world=([], [])):
@@ -80,7 +81,7 @@ def ev_wire(ev, world=([], [])):
     kind, D, order, kill = ev
     if kind == 'X':
         return '\x01'.join(['X', D, order, ''])
-    flag = 'T' if kind in 'NMK' else ''
+    flag = 'T' if kind in 'NMKV' else ''
     return '\x01'.join([MODEL_KIND[kind], d_wire(D), ','.join(order or []), '' if kill is None else str(kill), flag,
                         d_wire(world[0]), d_wire(world[1])])
 
@@ -100,6 +101,10 @@ def cmd_args(kind, D, bdir, src):
         return ['configure', '--clearcache', bdir] + d_args(D)
     if kind == 'W':
         return ['setup', '--wipe', bdir, src] + d_args(D)
+    if kind == 'V':
+        return ['setup', '--wipe', bdir, src, '--native-file', os.path.join(src, 'other.ini')] + d_args(D)
+    if kind == 'Y':
+        return ['setup', '--wipe', bdir, src, '--cross-file', os.path.join(src, 'other.ini')] + d_args(D)
     return ['configure', bdir] + d_args(D)
 
 
@@ -123,6 +128,7 @@ class Lab:
         open(os.path.join(self.src, 'meson.options'), 'w').write(MESON_OPTIONS)
         open(os.path.join(self.src, 'subprojects', 'sub', 'meson.build'), 'w').write(SUB_BUILD)
         open(os.path.join(self.src, 'subprojects', 'sub', 'meson.options'), 'w').write(SUB_OPTIONS)
+        open(os.path.join(self.src, 'other.ini'), 'w').write("[properties]\nverif_marker = 'another machine file'\n")
         self.srcs = {}
         import itertools
         self._nd = itertools.count(1)          # next() is atomic: newdir() is called from worker threads
@@ -350,6 +356,10 @@ def scenarios(thorough, rng):
     S.append(('edited-defaults/reconfigure', conf + [('E', [], None, None)], ('R', [(1, 1)])))
     S.append(('edited-defaults/configure', conf + [('E', [], None, None)], ('C', [(1, 1)]), 'bracket'))
     S.append(('machine-file-values/wipe', [('M', [(0, 1)], None, None)], ('W', [])))
+    # the directory was configured with a machine file read from a PIPE (copy in meson-private/<uuid>.native.ini, named by
+    # cmd_line.txt); the wipe itself passes ANOTHER machine file: the recorded copy must survive as long as cmd_line.txt names it
+    S.append(('machine-file-from-pipe/wipe --native-file other', [('N', [(0, 1)], None, None)], ('V', []), 'plain', '', ['wipe']))
+    S.append(('machine-file-from-pipe/wipe --cross-file other', [('N', [(0, 1)], None, None)], ('Y', [(1, 1)]), 'space', '', ['wipe']))
     # --wipe WITH a new -D for an option whose declared default changed since the first setup (known finding)
     S.append(('edited-defaults/wipe-D', conf + [('E', [], None, None)], ('W', [(2, 2)])))
     # --clearcache forces coredata.dat to be saved even when no value changes
@@ -488,7 +498,7 @@ class Runner:
             w = pw + [ev_wire(hist[-1])]
         elif kill is None:
             order = None
-            if kind == 'W':
+            if kind in WIPES:
                 rec = lab.record(pdir, kind, D, area, style, src)
                 order = rec['order']
             if kind == 'M':
@@ -511,7 +521,7 @@ class Runner:
             if not d2['hit']:
                 raise HarnessError('kill point missed while building a history')
             d = d2['dir']
-            w = pw + [ev_wire((kind, D, rec['order'] if kind == 'W' else None, kill), world_at(hist))]
+            w = pw + [ev_wire((kind, D, rec['order'] if kind in WIPES else None, kill), world_at(hist))]
         self.bases[key] = (d, w)
         return self.bases[key]
 
@@ -581,7 +591,7 @@ def do_replay(ctx):
         print('                 ', t)
     print('values reported:', {k: VALUES[k][v] if v < len(VALUES[k]) else v for k, v in (post['intro_values'] or {}).items()} if f['rc'] == 0 else '-')
     if ctx.build('Props/C09.v', 'Crash/Extract.v', 'C09'):
-        m = ctx.run_model([('crash', [lab.env_wire(), '\x02'.join(hw), ev_wire((kind, D, rc['order'] if kind == 'W' else None, None), world_at(hist)),
+        m = ctx.run_model([('crash', [lab.env_wire(), '\x02'.join(hw), ev_wire((kind, D, rc['order'] if kind in WIPES else None, None), world_at(hist)),
                                       str(pts[0]['k']), KEYS_WIRE])])[0]
         print('model          :', m)
     ctx.cleanup()
@@ -618,7 +628,7 @@ def run(ctx):
         hist = sc[1]
         style = sc[3] if len(sc) > 3 else 'plain'
         srctag = ('p%03d' % n) if any(e[0] in 'ME' for e in hist) else ''
-        if len(sc) > 4:
+        if len(sc) > 4 and sc[4]:
             srctag = sc[4] + '%03d' % n
         plan.append((hist, style, srctag))
     for L in range(1, max([len(h) for h, _, _ in plan] + [0]) + 1):
@@ -629,12 +639,12 @@ def run(ctx):
         style = sc[3] if len(sc) > 3 else 'plain'
         # histories that edit the project or use a machine file get a private copy of the project
         srctag = ('p%03d' % len(jobs)) if any(e[0] in 'ME' for e in hist) else ''
-        if len(sc) > 4:
+        if len(sc) > 4 and sc[4]:
             srctag = sc[4] + '%03d' % len(jobs)
         base, hw = runner.build_history(hist, style, srctag)
         jobs.append({'id': sid + ('' if style == 'plain' else ' [%s directory name]' % style), 'hist': hist, 'hw': hw, 'base': base,
                      'kind': kind, 'D': D, 'style': style, 'srctag': srctag, 'src': lab.src_for(srctag),
-                     'unmodelled_values': False})
+                     'unmodelled_values': False, 'extra_followups': sc[5] if len(sc) > 5 else []})
     ctx.extra['history_build_s'] = round(time.time() - t0, 1)
 
     # --- recordings (parallel)
@@ -648,7 +658,7 @@ def run(ctx):
     kills = []
     for jb in jobs:
         rec = jb['rec']
-        jb['cmd_wire'] = ev_wire((jb['kind'], jb['D'], rec['order'] if jb['kind'] == 'W' else None, None), world_at(jb['hist']))
+        jb['cmd_wire'] = ev_wire((jb['kind'], jb['D'], rec['order'] if jb['kind'] in WIPES else None, None), world_at(jb['hist']))
         model_cases.append(('ops', [env_w, '\x02'.join(jb['hw']), jb['cmd_wire']]))
         model_meta.append(('ops', jb, None))
         pts = select_points(rec['points'], thorough)
@@ -662,7 +672,9 @@ def run(ctx):
             if jb['id'].startswith('cpp-modules'):
                 keep = {p['j'] for n, p in enumerate(pts) if n % 6 == 0}
                 pts = [p for p in rec['points'] if p['j'] == 0 or '.p/' in p['target'] or p['j'] in keep]
-            if jb['id'].startswith('machine-file'):
+            if jb['id'].startswith('machine-file-from-pipe/wipe --'):
+                pts = [p for n, p in enumerate(pts) if p['j'] == 0 or n % 2 == 0]
+            elif jb['id'].startswith('machine-file'):
                 pts = [p for n, p in enumerate(pts) if p['j'] == 0 or n % 5 == 0]
             if jb['id'].startswith('random'):
                 pts = [p for n, p in enumerate(pts) if p['j'] == 0 or n % 3 == 0]
@@ -691,6 +703,16 @@ def run(ctx):
     pre = lab.classify([k['dir'] for k in kres], ninja_refs)
     ctx.extra['kill_runs_s'] = round(time.time() - t1, 1)
     t2 = time.time()
+    extra = [(i, kills[i][0]) for i in range(len(kres)) if 'wipe' in kills[i][0]['extra_followups']]
+
+    def wipe_followup(x):
+        i, jb = x
+        d2 = lab.newdir(jb['area'], jb['style'])
+        T.relocate(kres[i]['dir'], d2)
+        r = T.meson(['setup', '--wipe', d2, jb['src']], lab.pyc)
+        out = r.stdout + r.stderr
+        return {'rc': r.returncode, 'tail': [l[:200] for l in out.strip().split('\n') if l.strip()][-2:] if r.returncode else []}
+    wres = dict(zip([i for i, _ in extra], pmap(wipe_followup, extra)))
     fres = pmap(lambda x: lab.followup(x[0], x[1]), [(k['dir'], kills[i][0]['src']) for i, k in enumerate(kres)] + [(jb['rec']['full_dir'], jb['src']) for jb in jobs])
     post = lab.classify([k['dir'] for k in kres] + full_dirs, ninja_refs + [], wellformed=True)
     # build.ninja after a follow-up is a new complete file: accept any content there
@@ -706,6 +728,8 @@ def run(ctx):
         vals = po['intro_values'] if f['rc'] == 0 else None
         obs = {'j': p['j'], 'what': p['what'], 'k': p['k'], 'state': pre[i]['state'], 'followup': f['followup'], 'rc': f['rc'],
                'cls': f['cls'], 'values': vals, 'msg_values': f['msg_values'], 'post': _fix_ninja(po['state']) if f['rc'] == 0 else None,
+               'pre_missing': pre[i].get('missing_machine_files'), 'post_missing': po.get('missing_machine_files') if f['rc'] == 0 else None,
+               'wipe_followup': wres.get(i),
                'ninja': po.get('ninja') if f['rc'] == 0 else None, 'problems': po.get('problems') if f['rc'] == 0 else None,
                'tail': f['tail'], 'stable': kres[i]['stable']}
         jb.setdefault('obs', []).append(obs)
@@ -780,7 +804,7 @@ def run(ctx):
         obs = jb.get('obs', [])
         first = next((o for o in obs if o['j'] == 0), None)
         osc.append({'id': jb['id'], 'old': first['values'] if first else None, 'new': jb['new'], 'ninja_refs': jb.get('ninja_refs', []),
-                    'points': [{k: o[k] for k in ('j', 'what', 'rc', 'cls', 'values', 'msg_values', 'post', 'tail', 'ninja', 'problems')} for o in obs]})
+                    'points': [{k: o[k] for k in ('j', 'what', 'rc', 'cls', 'values', 'msg_values', 'post', 'tail', 'ninja', 'problems', 'pre_missing', 'post_missing')} for o in obs]})
     fails = run_impl('c09.py', {'oracle': osc}, env={'PYTHONPYCACHEPREFIX': lab.pyc})['oracle']
     disagreeing = {(d.get('scenario'), d.get('kill_point')) for d in ctx.disagreements}
     for jb, fl in zip(jobs, fails):
@@ -797,6 +821,15 @@ def run(ctx):
         elif jb['new'] is None:
             ctx.violation('C09:command-fails:' + jb['id'], 'the follow-up after the COMPLETE command `%s` fails (%s)' % (cmd_text(jb['kind'], jb['D']), jb['new_cls']),
                           dict(replay_base, j=-1))
+        # alternative recovery: `meson setup --wipe` on a copy of the killed directory must succeed too
+        wfail = [o for o in jb.get('obs', []) if o.get('wipe_followup') and o['wipe_followup']['rc'] != 0]
+        if wfail:
+            o = wfail[0]
+            ctx.violation('C09:followup-fails(--wipe):' + jb['id'],
+                          '`meson %s` on [%s], killed on entry to %s: recovering with `meson setup --wipe` exits %s: %s  (%d kill point(s): %s)'
+                          % (cmd_text(jb['kind'], jb['D']), hist_txt, o['what'], o['wipe_followup']['rc'], ' / '.join(o['wipe_followup']['tail']),
+                             len(wfail), ', '.join(x['what'] for x in wfail[:6])),
+                          dict(replay_base, j=o['j'], what=o['what'], recovery='setup --wipe'))
         groups = {}
         for f in fl:
             groups.setdefault((f['kind'], f.get('key')), []).append(f)
@@ -813,6 +846,8 @@ def run(ctx):
             elif kind == 'build.ninja-differs-from-uninterrupted-run':
                 detail = 'the follow-up exits 0 but the build.ninja it wrote is not the file an uninterrupted run writes (sha1 %s, expected one of %s)' % (
                     f['sha1_after_recovery'][:12], [h[:12] for h in f['sha1_of_uninterrupted_runs']])
+            elif kind in ('recorded-machine-file-missing', 'recorded-machine-file-missing-after-followup'):
+                detail = 'cmd_line.txt [properties] names a machine file that no longer exists: ' + '; '.join(f['files'])
             elif kind == 'followup-fails':
                 detail = 'the follow-up exits with %s: %s' % (f['class'], ' / '.join(f.get('detail') or [])[-300:])
             else:
